@@ -41,8 +41,8 @@ AddOps   == {"AddBlock", "AddBlocks"}
 VARIABLES cfg,      \* configuration of this run
           local,    \* the blockstore: set of blocks, at most one per CID
           calls,    \* active calls: id -> call record
-          touched,  \* ghost: CIDs ever stored by the service / asked from the exchange / handed to a caller
-          last,     \* ghost: the most recent hand-off (block returned by GetBlock / received from GetBlocks)
+          touched,  \* ghost: REJECTED CIDs ever stored by the service / asked from the exchange / handed to a caller
+          last,     \* ghost: the most recent hand-off (block returned by GetBlock / received from GetBlocks), projected
           dev       \* deviations used so far in this run
 vars == <<cfg, local, calls, touched, last, dev>>
 
@@ -55,7 +55,8 @@ RemoveOne(s, x) == LET i == CHOOSE j \in 1..Len(s) : s[j] = x /\ \A k \in 1..(j-
                    IN  SubSeq(s, 1, i-1) \o SubSeq(s, i+1, Len(s))
 CidsOf(S)     == {b.c : b \in S}
 
-NoHand == [op |-> "none", keys |-> {}, b |-> NoBlock, src |-> "none", inlocal |-> FALSE]
+NoHand == [op |-> "none", requested |-> TRUE, exact |-> TRUE, hashok |-> TRUE, src |-> "none", inlocal |-> TRUE]
+Rejected(S) == {c \in S : ~Valid(c)}
 
 NewCall(op, sess, keys, args) ==
     [op |-> op, sess |-> sess,
@@ -114,7 +115,7 @@ AddPut(id, S) ==
     /\ Active(id) /\ calls[id].op \in AddOps
     /\ S \subseteq calls[id].args /\ \A b \in S : Valid(b.c)
     /\ local' = local \cup {b \in S : ~Present(b.c)}
-    /\ touched' = [touched EXCEPT !.stored = @ \cup CidsOf(S)]
+    /\ touched' = [touched EXCEPT !.stored = @ \cup Rejected(CidsOf(S))]
     /\ UNCHANGED <<cfg, calls, last, dev>>
 
 BsDelete(id, c) ==
@@ -131,7 +132,7 @@ ExAsk(id, S) ==
     /\ Active(id) /\ calls[id].op \in GetOps /\ cfg.ex # "none"
     /\ ~calls[id].asked /\ S # {} /\ S = calls[id].miss
     /\ Upd(id, [calls[id] EXCEPT !.asked = TRUE, !.want = S])
-    /\ touched' = [touched EXCEPT !.asked = @ \cup S]
+    /\ touched' = [touched EXCEPT !.asked = @ \cup Rejected(S)]
     /\ UNCHANGED <<cfg, local, last, dev>>
 
 \* environment: the exchange hands back ANY block / closes / fails
@@ -151,7 +152,7 @@ CacheEffect(id, b, rdy, d) ==
     /\ Upd(id, [calls[id] EXCEPT !.infl = RemoveOne(@, b),
                                  !.ready = IF rdy THEN Append(@, [b |-> b, src |-> "ex"]) ELSE @])
     /\ local' = IF Present(b.c) THEN local ELSE local \cup {b}
-    /\ touched' = [touched EXCEPT !.stored = @ \cup {b.c}]
+    /\ touched' = [touched EXCEPT !.stored = @ \cup Rejected({b.c})]
     /\ dev' = dev \cup d
     /\ UNCHANGED <<cfg, last>>
 CachePut(id, b) ==
@@ -172,8 +173,12 @@ DevCachePut(id, b) ==
 Notify(id, S) == /\ Active(id) /\ cfg.ex # "none" /\ \A c \in S : Present(c) /\ UNCHANGED vars
 
 (* ---- hand-off to the caller ------------------------------------------------------------ *)
-HandRec(id, e) == [op |-> calls[id].op, keys |-> calls[id].keys, b |-> e.b, src |-> e.src,
-                   inlocal |-> Present(e.b.c)]
+HandRec(id, e) == [op        |-> calls[id].op,
+                   requested |-> e.b.c \in calls[id].keys,        \* its CID is one the caller asked for
+                   exact     |-> calls[id].keys = {e.b.c},        \* ... is THE CID asked for (GetBlock)
+                   hashok    |-> e.b.ok,                          \* its bytes hash to its CID
+                   src       |-> e.src,                           \* "local" | "ex"
+                   inlocal   |-> Present(e.b.c)]                  \* it is in the blockstore right now
 FirstReady(id, b) == LET r == calls[id].ready IN
                      CHOOSE i \in 1..Len(r) : r[i].b = b /\ \A k \in 1..(i-1) : r[k].b # b
 \* one block received from the channel returned by GetBlocks
@@ -183,7 +188,7 @@ Recv(id, b) ==
     /\ LET i == FirstReady(id, b) IN
        /\ last' = HandRec(id, calls[id].ready[i])
        /\ Upd(id, [calls[id] EXCEPT !.ready = SubSeq(@, 1, i-1) \o SubSeq(@, i+1, Len(@))])
-    /\ touched' = [touched EXCEPT !.handed = @ \cup {b.c}]
+    /\ touched' = [touched EXCEPT !.handed = @ \cup Rejected({b.c})]
     /\ UNCHANGED <<cfg, local, dev>>
 \* every accepted requested CID was looked up, and the misses went to the exchange if there is one
 Complete(id) == /\ calls[id].req \subseteq calls[id].seen
@@ -196,7 +201,7 @@ ReturnBlock(id, b) ==
     /\ Active(id) /\ calls[id].op = "GetBlock"
     /\ \E i \in 1..Len(calls[id].ready) : calls[id].ready[i].b = b
     /\ last' = HandRec(id, calls[id].ready[FirstReady(id, b)])
-    /\ touched' = [touched EXCEPT !.handed = @ \cup {b.c}]
+    /\ touched' = [touched EXCEPT !.handed = @ \cup Rejected({b.c})]
     /\ Drop(id) /\ UNCHANGED <<cfg, local, dev>>
 \* errors: a validator error exactly for rejected CIDs; any other error only when there is nothing to return
 ReturnErr(id, class) ==
@@ -222,11 +227,11 @@ TypeOK == /\ cfg \in Cfgs
           /\ \A b \in local : b.c \in Cids /\ \A d \in local : d.c = b.c => d = b
           /\ dev \subseteq Devs
 \* C04: a CID the validator rejects is never stored, never asked from the exchange, never handed out
-P_RejectedNeverTouched == \A c \in touched.stored \cup touched.asked \cup touched.handed : Valid(c)
+P_RejectedNeverTouched == touched.stored \cup touched.asked \cup touched.handed = {}
 \* C05: what is handed to a caller was asked for by that caller / is THE block asked for / hashes to its CID
-P_OnlyRequested == last.op # "none" => last.b.c \in last.keys
-P_GetBlockExact == last.op = "GetBlock" => last.keys = {last.b.c}
-P_SelfCertified == last.op # "none" => last.b.ok
+P_OnlyRequested == last.op # "none" => last.requested
+P_GetBlockExact == last.op = "GetBlock" => last.exact
+P_SelfCertified == last.op # "none" => last.hashok
 \* a run that needed a recorded deviation has left the ideal: the properties are claimed for dev = {}
 RejectedNeverTouched == dev = {} => P_RejectedNeverTouched
 OnlyRequested        == dev = {} => P_OnlyRequested
